@@ -36,6 +36,7 @@ type sconn struct {
 	written []byte
 	wsizes  []int
 	wi      int
+	wcalls  int
 }
 
 func (c *sconn) Read(b []byte) (int, error) {
@@ -54,6 +55,7 @@ func (c *sconn) Read(b []byte) (int, error) {
 }
 func (c *sconn) Write(b []byte) (int, error) {
 	n := len(b)
+	c.wcalls++
 	if len(c.wsizes) > 0 {
 		k := c.wsizes[c.wi%len(c.wsizes)]
 		c.wi++
@@ -284,7 +286,7 @@ func exec(line string) (res h.Result) {
 			if len(hd) > 4 {
 				hd = hd[:4]
 			}
-			res.Impl = fmt.Sprintf("ok len=%d adler=%d hdr=%s", len(c.written), adler32.Checksum(c.written), h.Hex(hd))
+			res.Impl = fmt.Sprintf("ok len=%d adler=%d hdr=%s calls=%d", len(c.written), adler32.Checksum(c.written), h.Hex(hd), c.wcalls)
 		}
 		res.Nontrivial = len(ws) > 0 || n > limit
 	default:
